@@ -33,6 +33,7 @@ Definition cand_sound (shgs : list shgT) (dss : list dsT) (c : cand) : Prop :=
     /\ (forall e', In e' (d_mc d) -> L <= e_sd e' <= U)
     /\ (exists e1 e2, In e1 (d_mc d) /\ In e2 (d_mc d) /\ e_sd e1 = L /\ e_sd e2 = U)
     /\ L < U
+    /\ 0 < h_hw h /\ c_wd c = h_hw h
     /\ in_band x (h_hw h) L U (e_sd e) = true
     /\ in_energy (h_er h) (e_en e) = true
     /\ c_wn c = e_mw e * h_flux h (e_en e)
@@ -65,7 +66,7 @@ Definition cand_factors_nonzero (shgs : list shgT) (dss : list dsT) (c : cand) :
 (* the generator object is consistent: its table is the one built from its
    current sources and data, and its sampler holds exactly the table's weights *)
 Definition mc_ok (st : mcgen) : Prop :=
-  construct (g_shgs st) (g_dss st) = Ok (g_tbl st) /\ g_p st = map c_wn (g_tbl st).
+  construct (g_shgs st) (g_dss st) = Ok (g_tbl st) /\ g_p st = samp_w (g_tbl st).
 
 (* number of events in a {dataset key: events} dictionary *)
 Definition dict_total {E : Type} (d : list (Z * list E)) : Z := zsum (map (fun kv => zlen (snd kv)) d).
